@@ -15,6 +15,7 @@ pub struct Inst {
 }
 
 const SYS_MODE: u32 = 7;
+const SERIAL_MODE: u32 = 6;
 
 #[derive(Debug, Serialize)]
 #[serde(tag = "method", content = "parameters")]
@@ -324,6 +325,202 @@ fn expected_call_json(i: usize, k: CallKind, via_proxy: bool) -> Value {
     v
 }
 
+
+/// *Serial history*: one long-lived connection used for dozens to hundreds of chains one after the
+/// other (plus ordinary receives in between), so that anything the connection does every N-th
+/// operation, or decides from what it saw many operations ago, is in the scenario space. Some
+/// reply streams are dropped before they have yielded everything; what they leave behind is taken
+/// by later streams or ordinary receives. Oracle: the frames handed out, by whatever means, are the
+/// scripted server's frames, in order, each exactly once; a stream owed c replies yields c frames
+/// and then ends; nothing is left over and nothing hangs once everything has been delivered.
+fn run_serial(world: &World, id: &'static str, want_sample: bool) -> Verdict {
+    #[derive(Clone, Debug)]
+    struct ChainOp {
+        kinds: Vec<CallKind>,
+        /// items to take from the stream (== owed: poll once more and expect the end)
+        take: usize,
+        /// ordinary receives after the stream is gone
+        recvs_after: usize,
+    }
+    let (ops, frames, closes, rd, wr) = {
+        let mut w = world.borrow_mut();
+        w.cfg = Cfg::swarm(&mut w.tape);
+        let t = &mut w.tape;
+        let n_chains = [40usize, 70, 100, 140, 200][t.draw(5)] + t.draw(30);
+        // a few big replies early in the connection's life, small ones ever after (or: anywhere)
+        let big_until = if t.draw(4) == 3 { n_chains } else { 2 + t.draw(n_chains / 3) };
+        let n_big = t.draw(4);
+        let big_at: Vec<usize> = (0..n_big).map(|_| t.draw(big_until)).collect();
+        let mut ops = Vec::new();
+        let mut frames: Vec<(Owed, usize)> = Vec::new(); // (reply, number of calls written before it is sent)
+        let mut backlog = 0usize; // frames released to the client side but not yet taken
+        let mut calls_written = 0usize;
+        let leave_behind = t.draw(3); // 0: streams are always drained; 1: sometimes not; 2: often not
+        for j in 0..n_chains {
+            let n = 1 + t.draw(3);
+            let kinds: Vec<CallKind> = (0..n).map(|_| if t.draw(3) == 2 { CallKind::Oneway } else { CallKind::Plain }).collect();
+            calls_written += n;
+            let owed = kinds.iter().filter(|k| **k == CallKind::Plain).count();
+            for k in 0..owed {
+                let text = if big_at.contains(&j) && k == 0 { tag(t, 2, j) + &tag(t, 4, j + 1).repeat(1 + t.draw(6)) } else { tag(t, 0, j + k) };
+                frames.push((Owed { service_error: false, error: false, unit_error: false, num: (j * 4 + k) as i64, text, continues: if t.draw(2) == 0 { None } else { Some(false) }, wire: 0 }, calls_written));
+            }
+            backlog += owed;
+            // a stream owed c replies can yield c frames (they may be an earlier chain's)
+            let take = if leave_behind > 0 && owed > 0 && t.draw(if leave_behind == 2 { 2 } else { 6 }) == 0 { t.draw(owed) } else { owed };
+            backlog -= take;
+            let recvs_after = if backlog > 0 && t.draw(3) == 0 { t.draw(backlog + 1) } else { 0 };
+            backlog -= recvs_after;
+            ops.push(ChainOp { kinds, take, recvs_after });
+        }
+        let closes = t.draw(2) == 1;
+        let rd = w.new_pipe();
+        let wr = w.sink_pipe();
+        let mut total = 0u64;
+        for (o, after_calls) in &frames {
+            let mut b = o.frame();
+            b.push(0);
+            total += b.len() as u64;
+            w.push_seg(rd, &b, Some(Gate { pipe: wr, nuls: *after_calls, counter: 0 }));
+        }
+        // the peer may close once it has answered everything
+        w.pipes[rd].close_when_done = closes;
+        w.step_cap = 60 * (total + 40 * ops.len() as u64 + 400);
+        w.stat("serial_history_runs");
+        w.stat_add("serial_history_chains", ops.len() as u64);
+        (ops, frames, closes, rd, wr)
+    };
+    if want_sample || world.borrow().want_sample {
+        world.borrow_mut().scenario = Some(json!({
+            "mode": "serial history on one connection",
+            "chains": ops.len(),
+            "first_chains": ops.iter().take(6).map(|o| format!("{o:?}")).collect::<Vec<_>>(),
+            "reply_frames": frames.len(),
+            "largest_reply": frames.iter().map(|f| f.0.frame().len()).max().unwrap_or(0),
+            "peer_closes_at_the_end": closes,
+        }));
+    }
+    let want: Vec<String> = frames.iter().map(|f| f.0.render()).collect();
+    #[derive(Default)]
+    struct Prog {
+        got: Vec<String>,
+        at: String,
+        finished: bool,
+        fail: Option<(String, String)>,
+    }
+    let prog: Rc<RefCell<Prog>> = Rc::new(RefCell::new(Prog::default()));
+    {
+        let mut conn = Connection::new(W::socket(world, rd, wr));
+        let mut ex = Exec::new();
+        let (prog2, world2, ops2, n_frames) = (prog.clone(), world.clone(), ops.clone(), frames.len());
+        ex.spawn(async move {
+            let mut id_no = 0usize;
+            for (j, op) in ops2.iter().enumerate() {
+                prog2.borrow_mut().at = format!("chain {j} ({:?}, take {})", op.kinds, op.take);
+                // one connection in the life of which entry points alternate
+                if j % 7 == 3 {
+                    let (r, w) = conn.split();
+                    conn = Connection::join(r, w);
+                }
+                let mut chain = match conn.chain_call::<MethOut, RepIn<'_>, ErrIn<'_>>(&call_for(id_no, op.kinds[0])) {
+                    Ok(c) => c,
+                    Err(e) => {
+                        prog2.borrow_mut().fail = Some((format!("{id}/chain-refused"), format!("chain {j}: {e:?}")));
+                        return;
+                    }
+                };
+                id_no += 1;
+                for k in &op.kinds[1..] {
+                    chain = match chain.append(&call_for(id_no, *k)) {
+                        Ok(c) => c,
+                        Err(e) => {
+                            prog2.borrow_mut().fail = Some((format!("{id}/chain-refused"), format!("chain {j}: {e:?}")));
+                            return;
+                        }
+                    };
+                    id_no += 1;
+                }
+                let owed = op.kinds.iter().filter(|k| **k == CallKind::Plain).count();
+                match chain.send().await {
+                    Ok(stream) => {
+                        pin_mut!(stream);
+                        for _ in 0..op.take {
+                            match stream.next().await {
+                                Some(it) => {
+                                    let r = render_item(&it);
+                                    world2.borrow_mut().ev("serial.item", j as u64, 0);
+                                    prog2.borrow_mut().got.push(r);
+                                }
+                                None => {
+                                    prog2.borrow_mut().fail = Some((format!("{id}/ended-early"), format!("chain {j} of a long-lived connection is owed {owed} replies; its stream ended before it had yielded {}", op.take)));
+                                    return;
+                                }
+                            }
+                        }
+                        if op.take == owed {
+                            if let Some(it) = stream.next().await {
+                                prog2.borrow_mut().fail = Some((format!("{id}/consumed-foreign-frame"), format!("chain {j} of a long-lived connection is owed {owed} replies; its stream yielded one more: {}", clip(&render_item(&it)))));
+                                return;
+                            }
+                        }
+                    }
+                    Err(e) => {
+                        prog2.borrow_mut().fail = Some(("chain/send-failed".into(), format!("chain {j}: {e:?}")));
+                        return;
+                    }
+                }
+                for _ in 0..op.recvs_after {
+                    prog2.borrow_mut().at = format!("ordinary receive after chain {j}");
+                    let r = conn.receive_reply::<RepIn<'_>, ErrIn<'_>>().await;
+                    world2.borrow_mut().ev("serial.recv", j as u64, 0);
+                    prog2.borrow_mut().got.push(render_item(&r));
+                }
+            }
+            // whatever the streams left behind
+            while prog2.borrow().got.len() < n_frames {
+                let i = prog2.borrow().got.len();
+                prog2.borrow_mut().at = format!("final ordinary receive for frame {i}");
+                let r = conn.receive_reply::<RepIn<'_>, ErrIn<'_>>().await;
+                let s = render_item(&r);
+                let stop = s.starts_with("TransportErr");
+                prog2.borrow_mut().got.push(s);
+                if stop {
+                    break;
+                }
+            }
+            prog2.borrow_mut().finished = true;
+        });
+        ex.run(world);
+    }
+    if let Some(f) = world.borrow_mut().fail.take() {
+        return Err(f);
+    }
+    let p = prog.borrow();
+    if let Some(f) = &p.fail {
+        return Err(f.clone());
+    }
+    for (i, g) in p.got.iter().enumerate() {
+        match want.get(i) {
+            Some(w_) if w_ == g => {}
+            Some(w_) => return Err((format!("{id}/wrong-item"), format!("long-lived connection ({} chains): frame {i} of {} came out as {}, the server sent {}", ops.len(), want.len(), clip(g), clip(w_)))),
+            None => return Err((format!("{id}/consumed-foreign-frame"), format!("long-lived connection: {} results for {} frames", p.got.len(), want.len()))),
+        }
+    }
+    if !p.finished || p.got.len() < want.len() {
+        return Err((
+            format!("{id}/stuck-although-every-owed-reply-was-delivered"),
+            format!("long-lived connection ({} chains): everything the server owed had been sent, {} of {} frames were handed out, and the client is stuck in {}", ops.len(), p.got.len(), want.len(), p.at),
+        ));
+    }
+    // every call reached the wire
+    let w = world.borrow();
+    let n_calls: usize = ops.iter().map(|o| o.kinds.len()).sum();
+    if w.pipes[wr].log_nuls != n_calls || w.pipes[wr].write_lens.len() != ops.len() {
+        return Err((format!("{id}/not-one-write"), format!("long-lived connection: {} chains with {} calls reached the transport as {} writes with {} frames", ops.len(), n_calls, w.pipes[wr].write_lens.len(), w.pipes[wr].log_nuls)));
+    }
+    Ok(w.scenario.clone())
+}
+
 /// What the harness remembers about a held item (C11).
 struct Held<'c> {
     item: zlink_core::Result<zlink_core::reply::Result<RepIn<'c>, ErrIn<'c>>>,
@@ -346,7 +543,12 @@ impl Prop for Inst {
         let borrowed = self.borrowed;
         let (sc, mode) = {
             let mut w = world.borrow_mut();
-            if w.tape.draw(8) as u32 == SYS_MODE {
+            let first = w.tape.draw(8) as u32;
+            if first == SERIAL_MODE && !borrowed && w.tape.draw(4) == 3 {
+                drop(w);
+                return run_serial(world, id, want_sample);
+            }
+            if first == SYS_MODE {
                 // systematic: chain shape enumerated by the tape prefix, three delivery styles
                 let n = 1 + w.tape.draw(4);
                 let mut calls = Vec::new();
